@@ -35,6 +35,10 @@ class FactoryError(Exception):
     pass
 
 
+class IterError(Exception):
+    """Raised by a harness-owned argument iterable when it is advanced (unusual but legal user code)."""
+
+
 class HarnessError(Exception):
     """A bug in the harness itself (never reported as a violation)."""
 
@@ -131,11 +135,12 @@ class ReqRec:
     __slots__ = ("label", "pc", "kind", "spec", "gname", "func", "spawners", "calls", "pulls",
                  "tasks", "skipped", "cancelled_seq", "accepted_seq", "elems", "num", "nc",
                  "ecb_kind", "ccb_kind", "payload_args", "payload_kwargs", "exhausted",
-                 "lock_hit", "probe", "last_el", "called_els", "last_started_el")
+                 "lock_hit", "probe", "last_el", "called_els", "last_started_el", "iter_failed")
 
     def __init__(self, label, pc, kind, spec):
         self.last_el = -1
         self.last_started_el = -1
+        self.iter_failed = False
         self.called_els = []
         self.label = label
         self.pc = pc
@@ -230,6 +235,21 @@ _START_NAME_RE = re.compile(r"^start-group-(\d+)$")
 
 
 _FALSY = (0, None, "", (), False)
+
+
+class _CountingArgs:
+    """One-shot iterator used as apply()'s ``args``; records whether it was advanced (C09)."""
+
+    def __init__(self, items):
+        self._it = iter(items)
+        self.pulled = 0
+
+    def __iter__(self):
+        return self
+
+    def __next__(self):
+        self.pulled += 1
+        return next(self._it)
 
 
 class _OneShot:
@@ -534,7 +554,7 @@ class Sim:
         self.ev("call", req.label, idx)
         if self.cur_spawn is not None and not plain:
             self.violate("C09", "call_in_request", "func called synchronously inside the spawn call")
-        if req.cancelled_seq is not None and not plain:
+        if req.cancelled_seq is not None and not plain and not req.iter_failed:
             self.violate("C07", "call_after_cancel", f"func of cancelled request r{req.label} called")
         # ---- arguments
         if req.kind in ("apply", "start"):
@@ -744,7 +764,7 @@ class Sim:
         pc.n_run += 1
         self.ev("task", pc.idx, n, req.label)
         name = f"#{n} of {pc.pool_str}"
-        if req.cancelled_seq is not None:
+        if req.cancelled_seq is not None and not req.iter_failed:
             self.violate("C07", "task_after_cancel", f"task {name} of cancelled request r{req.label} created")
         if pc.closed:
             self.violate("C08", "task_after_close", f"task {name} created in closed pool")
@@ -785,7 +805,7 @@ class Sim:
         self.ev("ws", pc.idx, trec.n)
         if pc.size is not None and pc.live > pc.size and not pc.size_changed:
             self.violate("C01", "live_over_size", f"{pc.pool_str}: {pc.live} workers live, size {pc.size}")
-        if req.cancelled_seq is not None:
+        if req.cancelled_seq is not None and not req.iter_failed:
             self.violate("C07", "start_after_cancel", f"{trec.name} of cancelled r{req.label} started")
         if pc.closed:
             self.violate("C08", "start_after_close", f"{trec.name} started in closed pool")
@@ -935,6 +955,17 @@ class Sim:
 
     def _arg_iter(self, req):
         for i in range(len(req.elems)):
+            if req.spec["elems"][i] == 4:
+                # the iterable itself fails here: the request can make no further progress
+                self.tick()
+                req.iter_failed = True
+                req.cancelled_seq = req.cancelled_seq or self.seq   # nothing more is expected of it
+                e = IterError(f"r{req.label} element {i}")
+                self.injected.append(e)
+                self.inj_by_pool[req.pc.idx] += 1
+                self.stats["fault:iterator_raises"] += 1
+                self.ev("iter_raises", req.label, i)
+                raise e
             self._on_pull(req, i)
             yield req.elems[i]
         self.tick()
@@ -1198,6 +1229,7 @@ class Sim:
         ccb = None if kind == "start" else self._make_cb(req, "ccb", req.ccb_kind)
         before = self._snapshot(pc) if causes else None
         live_before = set(pc.live_names)
+        counting = None
         self.cur_spawn = req
         exc = None
         ret = None
@@ -1209,7 +1241,11 @@ class Sim:
                     kw = {}
                     if gn is not None:
                         kw["group_name"] = gn
-                    ret = pool.apply(func, req.payload_args, req.payload_kwargs or None, req.num,
+                    call_args = req.payload_args
+                    counting = None
+                    if causes and step.get("ash") == 4:
+                        counting = call_args = _CountingArgs(req.payload_args or (Payload(("r", label, "it0")),))
+                    ret = pool.apply(func, call_args, req.payload_kwargs or None, req.num,
                                      end_callback=ecb, cancel_callback=ccb, **kw)
                 else:
                     kw = {}
@@ -1231,6 +1267,8 @@ class Sim:
                 self.violate("C09", "closed_precedence", f"{kind} on closed pool raised {type(exc).__name__}")
                 self.violate("C08", "closed_rejection", f"{kind} on closed pool raised {type(exc).__name__}")
             if exc is not None:
+                if kind == "apply" and step.get("ash") == 4 and counting is not None and counting.pulled:
+                    self.violate("C09", "args_iterable_touched", f"rejected apply advanced its args iterator {counting.pulled}x")
                 after = self._snapshot(pc)
                 if after != before:
                     self.violate("C09", "trace_left", f"rejected {kind} changed observables: {before} -> {after}")
